@@ -154,4 +154,22 @@ def shapes(tier, seed):
             S.append(BadProgram(f'fault:{fault}:{k}', prog={'main.asm': prog}, files={'main.asm': '\n'.join(lines) + '\n'},
                                 fault=fault, cfgargs=dict(origin=cs['o0'], consts=cs), props=['C14'], binary=True,
                                 start=cs['o0'], width=40))
+    # faults that need two files: a name that is visible only in the other file is unresolvable
+    two = {
+        'file-label-of-the-includer': ({'main.asm': '_t: nop\n#include "inc.asm"\n.byte 1\n', 'inc.asm': '.2byte _t\n'}, 'an_unresolvable_label'),
+        'file-constant-of-the-includer': ({'main.asm': '_k = 5\n#include "inc.asm"\nnop\n', 'inc.asm': '.byte _k\n'}, 'an_unresolvable_label'),
+        'file-label-of-the-included-file': ({'main.asm': 'nop\n#include "inc.asm"\n.2byte _t\n', 'inc.asm': '_t: .byte 2\n'}, 'an_unresolvable_label'),
+        'local-label-of-the-includer': ({'main.asm': 'g: nop\n.x: nop\n#include "inc.asm"\n', 'inc.asm': '.2byte .x\n'}, 'an_unresolvable_label'),
+        'file-label-two-levels-up': ({'main.asm': '_t: nop\n#include "a.asm"\n', 'a.asm': 'nop\n#include "b.asm"\n', 'b.asm': '.2byte _t\n'},
+                                     'an_unresolvable_label'),
+    }
+    # faults on lines that emit nothing because they are muted: still faults
+    two['unresolvable-label-in-a-muted-region'] = ({'main.asm': 'nop\n#mute\n.2byte nowhere_defined\n#unmute\n.byte 1\n'}, 'an_unresolvable_label')
+    two['operand-label-in-a-muted-region'] = ({'main.asm': '#mute\nld16 missing + 1\n#unmute\nnop\n'}, 'an_unresolvable_label')
+    two['field-overflow-in-a-muted-region'] = ({'main.asm': 'nop\n#mute\nld8 70000\n#unmute\n'}, 'a_value_its_field_cannot_hold')
+    two['no-variant-in-a-muted-region'] = ({'main.asm': '#mute\nld8 ra\n#unmute\nnop\n'}, 'a_statement_no_variant_accepts')
+    for name, (files, fault) in two.items():
+        S.append(BadProgram(f'fault2:{name}', prog={'main.asm': []}, files=files, fault=fault,
+                            cfgargs=dict(origin=Sym('o0', 0, 0x800), consts={'o0': (0, 0x800)}), props=['C14'], binary=True,
+                            start=Sym('o0', 0, 0x800), width=40))
     return S
